@@ -150,6 +150,7 @@ def c18_seq(start, owner, ops):
                 if isinstance(b, tuple):
                     good = isinstance(a, (BraceGroup, BracketGroup)) and gtext(a) == b[1]
                     SX.check(good, tag + ':coerced-group', det)
+                    SX.check(not any([a is other for j, other in enumerate(list(args)) if j != k]), tag + ':coerced-group-aliased', det)
                     m[k] = a            # from now on the model holds the coerced group object itself
                 else:
                     SX.check(a is b, tag + ':element-identity', det)
